@@ -14,7 +14,7 @@ import z3
 
 from harness import e1, progs_cheats, zeval
 from harness.common import Check, MachineryError, cleanup, workdir
-from harness.e1corpus import describe, Item, run_items
+from harness.e1corpus import describe, Item, run_items, release
 from harness.hrun import run as halmos_run
 
 from .c01 import judge
@@ -141,6 +141,8 @@ def run(chk: Check, tier: str):
             items.append(Item(prog, inputs, key=prog.name))
         skipped = 0
         for i in range(0, len(items), 120):
+            if i:
+                release(items[i - 120 : i])
             outs = run_items(items[i : i + 120], chk)
             judge(chk, outs)
             for o in outs:
